@@ -153,7 +153,7 @@ SUBCHECKS = {
         rule="case = (shape vector, spacing); non-trivial = the exact pocket-free curve differs from the GCC (>=1 pocket); "
              "outcomes = distinct resulting (T, H_net_np) columns; classes by number of closing temperatures are counted in stats",
         cases=shape_cases, run=shape_run,
-        bound=lambda t: "{0..3}^n, n<=7, 2 spacings" if t == "quick" else "{0..3}^n n<=9 and {0..5}^7, 3 spacings",
+        bound=lambda t: "{0..3}^n, n<=7, 3 spacings (one symmetric about 0.0)" if t == "quick" else "{0..3}^n n<=9 and {0..5}^7, 4 spacings",
     ),
     "service": SubCheck(
         name="service",
